@@ -6,15 +6,15 @@ CONSTANTS
   AttrNames = {"a"}
   AttrVals = {"i32"}
   ResizeTo = {}
-  Ops = {"mkgroup", "mkds", "hlink", "slink", "xlink"}
+  Ops = {"mkgroup", "mkds", "mkgroupl"}
   Depth = 3
   EmitLens = {1, 2, 3}
   Sbs = {2}
   MaxObjs = 8
-  Tag = "C03"
+  Tag = "C03-grouplinks"
   SoftTargets <- C03Soft
-  HardTargets <- AllPaths
-  LinkCounts = {}
+  HardTargets <- C03Soft
+  LinkCounts = {0, 1, 8, 9, 12}
   SureCases = FALSE
   OnlyLastMayFail = TRUE
 SPECIFICATION LSpec
